@@ -1,7 +1,7 @@
 (* C10 - Every prefix of the output is a consistent truncated minidump.   Property theorems only. *)
 From Coq Require Import List NArith Arith.
 From MDW Require Import Bytes DirSection DirSectionProofs Prefix DirTrace TraceProofs TraceSeqProofs.
-From MDW Require MemWriter Writer MiniDump RefsInside.
+From MDW Require MemWriter Writer Hoare MiniDump RefsInside Image ImageProofs.
 Import ListNotations.
 Local Open Scope nat_scope.
 
@@ -87,3 +87,15 @@ Theorem C10_references_already_present : forall s,
   Writer.Inv s -> Forall (RefsInside.ref_inside (length (Writer.w_buf s))) (Writer.w_refs s).
 Proof. exact RefsInside.inv_refs_inside. Qed.
 Print Assumptions C10_references_already_present.
+
+(* The WHOLE dump: the model of generate_dump with all section writers (Image.v, in the order of the stream plan
+   regenerated from the source) records the builder state at every boundary between two destination calls - after the
+   header flush, after the flush of each stream's bytes, and again after its directory entry has been written.  For
+   every content, at every such boundary: each location stored so far designates bytes already built, and each
+   directory entry handed over so far is unused or names bytes already built.  (The destination then holds exactly
+   those bytes: C09.) *)
+Theorem C10_whole_dump_prefixes : forall c r s', Image.image c MiniDump.empty_wst = MemWriter.Ok (r, s') ->
+  Forall (fun sn => Forall (ImageProofs.ref_inside (Hoare.blen (fst sn))) (Writer.w_refs (fst sn)) /\
+                    Forall (ImageProofs.dirent_inside (Hoare.blen (fst sn))) (snd sn)) (snd r).
+Proof. exact ImageProofs.image_prefixes. Qed.
+Print Assumptions C10_whole_dump_prefixes.
